@@ -29,7 +29,8 @@ ValueVerdict(e) ==
        ELSE IF o.t = "int" THEN (IF IsSmall(o.b) /\ <<SmallInt(o.b), 1>> = q THEN {} ELSE {"float_result_wrong"})
        ELSE IF o.t = "exc" THEN {"raises_on_defined_expression"}
        ELSE {"float_result_wrong"}
-Verdict(e) == SignVerdict(e) \cup ValueVerdict(e)
+\* o.t = "mutated": the assignment handed to evaluate() was not the same afterwards (a key inserted by a careless look-up)
+Verdict(e) == IF e.obs.t = "mutated" THEN {"evaluate_modifies_the_assignment"} ELSE SignVerdict(e) \cup ValueVerdict(e)
 VARIABLES i, v
 Init == i \in 1..N /\ v = {"pending"}
 Next == v = {"pending"} /\ v' = Verdict(Events[i]) /\ UNCHANGED i
